@@ -57,6 +57,7 @@ type frame struct {
 
 // Interp executes one path.
 type Interp struct {
+	pcLits map[string]bool // literal text of the asserted path constraints (branch shortcut)
 	P       *Program
 	cfg     *Config
 	solver  *Solver
